@@ -143,16 +143,20 @@ def check_dispatcher(ctx: Ctx, r: Rule) -> None:
             fail(r, ctx, gi, gi.node, f"ParsedDataMap[k] must be its own dict's list for k; found {show(rt)[:120]}")
 
 
-def parse_call_pattern(cq: str) -> tuple:
-    return ("call", ("func", f"{cq}._parse_data_from_chart_lines"), (), ANYP)
-
-
 def kinds_of(ctx: Ctx, which: str):
     """(class, parse-helper FuncInfo, tuple of ParsedData class quals in the order tried, {ParsedData qual: tuple index
     in the helper's result})."""
     cq = TRACKS[which]
     c = ctx.cls(cq)
-    pf = c.find_method("_parse_data_from_chart_lines")
+    # discovered, not named: the method of this class that from_chart_lines calls and that itself calls the dispatcher
+    pf = None
+    fcl = c.find_method("from_chart_lines")
+    if fcl is not None:
+        for cl in ctx.summary(fcl).calls:
+            if cl.fn[0] in ("func", "boundcls") and not cl.inlined:
+                g = ctx.prog.functions.get(cl.fn[1])
+                if g is not None and g.cls is not None and g.cls in c.mro and any(x.fn == ("func", PARSE) for x in ctx.summary(g).calls):
+                    pf = g
     if pf is None:
         return c, None, None, None, None
     s = ctx.summary(pf)
@@ -185,7 +189,7 @@ def check_track_sections(ctx: Ctx, r: Rule, which: str, strict: Any = True) -> d
     out = {"order": order}
     f = c.find_method("from_chart_lines")
     if f is None or pf is None:
-        fail(r, ctx, c, c.node, f"{c.name}.from_chart_lines / _parse_data_from_chart_lines vanished")
+        fail(r, ctx, c, c.node, f"{c.name}.from_chart_lines no longer hands its lines to the dispatcher through a helper of its own class")
         return out
     r.inst(f"{cq}: lines -> kinds -> builders -> fields")
     ps = pf.params()
